@@ -2,6 +2,7 @@ import PytmeModel.Model.C11
 import PytmeModel.Proofs.C11
 import PytmeModel.Proofs.C11Star
 import PytmeModel.Proofs.C11Perm
+import PytmeModel.Proofs.C11Extract
 
 /-! # C11 — orientation tables round-trip; subsetting; extraction windows -/
 namespace Pm.C11
@@ -500,6 +501,391 @@ theorem subset_aligned {τ ρ σ δ : Type} (o o' : Orient τ ρ σ δ) (idx : L
 example : takeIdx [10, 20, 30, 40] [-1, 0, 2, 2] = .ok [40, 10, 30, 30] := by decide
 example : takeIdx [10, 20, 30] [3] = .error .indexError := by decide
 example : takeMask [10, 20, 30] [true, false, true] = .ok [10, 30] := by decide
+
+/-! ## `get_extraction_slices` end to end: every pick, every axis, both `drop_out_of_box` settings -/
+
+/-- **which entries are returned**: entry `(i, w)` is in the result exactly when pick `i` exists, passes the filter
+(no filter without `drop_out_of_box`) and `w` is its list of per-axis windows -/
+theorem extraction_entry_iff (T e : List Nat) (peaks : List (List Int)) (drop : Bool) (i : Nat)
+    (w : List (Int × Int × Int × Int)) :
+    (i, w) ∈ extraction T e peaks drop ↔
+      ∃ p, peaks[i]? = some p ∧ (drop = false ∨ keepPick T e p = true) ∧ w = windowAxes T e p :=
+  mem_extraction T e peaks drop i w
+
+/-- **rows and slices stay together**: the positions returned are the ones numpy's `self[keep_peaks]` selects from
+`0..n-1` (that selection succeeds: the mask has one entry per pick), the slices are those of the same picks in the
+same order, and the positions are strictly increasing (source order, no pick twice) -/
+theorem extraction_rows (T e : List Nat) (peaks : List (List Int)) (drop : Bool) :
+    takeMask (List.range peaks.length) (keepMask T e peaks drop) = .ok ((extraction T e peaks drop).map (·.1)) ∧
+    (extraction T e peaks drop).map (·.2) = (maskSel peaks (keepMask T e peaks drop)).map (windowAxes T e) ∧
+    ((extraction T e peaks drop).map (·.1)).Pairwise (· < ·) := by
+  have h1 : (extraction T e peaks drop).map (·.1) = maskSel (List.range peaks.length) (keepMask T e peaks drop) := by
+    rw [extraction_eq, List.range_eq_range']; exact exStep_fst T e drop peaks 0
+  have h2 : (extraction T e peaks drop).map (·.2) = (maskSel peaks (keepMask T e peaks drop)).map (windowAxes T e) := by
+    rw [extraction_eq, List.range_eq_range']; exact exStep_snd T e drop peaks 0
+  refine ⟨?_, h2, ?_⟩
+  · rw [h1]; unfold takeMask; simp [keepMask, pure, Except.pure]
+  · rw [h1]; exact List.Pairwise.sublist (maskSel_sublist _ _) List.pairwise_lt_range
+
+/-- the orientation set returned next to the slices (`subset = self[keep_peaks]`): all four arrays are cut with the
+same mask, so its `k`-th row belongs to the `k`-th pair of slices -/
+theorem extraction_subset {τ ρ σ δ : Type} (o : Orient τ ρ σ δ) (T e : List Nat) (peaks : List (List Int)) (drop : Bool)
+    (ht : o.translations.length = peaks.length) (hr : o.rotations.length = peaks.length)
+    (hs : o.scores.length = peaks.length) (hd : o.details.length = peaks.length) :
+    extractionSubset o T e peaks drop =
+      .ok ⟨maskSel o.translations (keepMask T e peaks drop), maskSel o.rotations (keepMask T e peaks drop),
+           maskSel o.scores (keepMask T e peaks drop), maskSel o.details (keepMask T e peaks drop)⟩ := by
+  have hm : (keepMask T e peaks drop).length = peaks.length := by simp [keepMask]
+  simp [extractionSubset, Orient.getMask, takeMask, hm, ht, hr, hs, hd, bind, Except.bind, pure, Except.pure]
+
+/-- the `k`-th row of the returned orientation set is the row of the pick the `k`-th pair of slices was computed for -/
+theorem extraction_subset_aligned {τ ρ σ δ : Type} (o o' : Orient τ ρ σ δ) (T e : List Nat) (peaks : List (List Int))
+    (drop : Bool) (ht : o.translations.length = peaks.length) (hr : o.rotations.length = peaks.length)
+    (hs : o.scores.length = peaks.length) (hd : o.details.length = peaks.length)
+    (h : extractionSubset o T e peaks drop = .ok o') (k i : Nat) (w : List (Int × Int × Int × Int))
+    (hk : (extraction T e peaks drop)[k]? = some (i, w)) :
+    i < peaks.length ∧ (∃ p, peaks[i]? = some p ∧ w = windowAxes T e p) ∧
+    o'.translations[k]? = o.translations[i]? ∧ o'.rotations[k]? = o.rotations[i]? ∧
+    o'.scores[k]? = o.scores[i]? ∧ o'.details[k]? = o.details[i]? := by
+  have h1 : (extraction T e peaks drop).map (·.1) = maskSel (List.range peaks.length) (keepMask T e peaks drop) := by
+    rw [extraction_eq, List.range_eq_range']; exact exStep_fst T e drop peaks 0
+  have hi : ((extraction T e peaks drop).map (·.1))[k]? = some i := by simp [hk]
+  rw [h1, List.range_eq_range'] at hi
+  have hmem : (i, w) ∈ extraction T e peaks drop := List.mem_of_getElem? hk
+  obtain ⟨p, hp, _, hw⟩ := (mem_extraction T e peaks drop i w).mp hmem
+  have hlt : i < peaks.length := (List.getElem?_eq_some_iff.mp hp).1
+  rw [extraction_subset o T e peaks drop ht hr hs hd] at h
+  injection h with h
+  subst h
+  have a1 := maskSel_index o.translations (keepMask T e peaks drop) 0 k i (by rw [ht]; exact hi)
+  have a2 := maskSel_index o.rotations (keepMask T e peaks drop) 0 k i (by rw [hr]; exact hi)
+  have a3 := maskSel_index o.scores (keepMask T e peaks drop) 0 k i (by rw [hs]; exact hi)
+  have a4 := maskSel_index o.details (keepMask T e peaks drop) 0 k i (by rw [hd]; exact hi)
+  exact ⟨hlt, ⟨p, hp, hw⟩, by simpa using a1.2.2, by simpa using a2.2.2, by simpa using a3.2.2, by simpa using a4.2.2⟩
+example : extractionSubset (⟨[10, 11, 12], [20, 21, 22], [30, 31, 32], [40, 41, 42]⟩ : Orient Nat Nat Nat Nat)
+      [10] [4] [[5], [0], [8]] true = .ok ⟨[10, 12], [20, 22], [30, 32], [40, 42]⟩ ∧
+    (extraction [10] [4] [[5], [0], [8]] true)[1]? = some (2, [(0, 4, 6, 10)]) := by decide
+
+/-- **without `drop_out_of_box`** (the padding mode) nothing is filtered: one entry per pick, in order, and the
+orientation set comes back unchanged -/
+theorem extraction_no_drop {τ ρ σ δ : Type} (o : Orient τ ρ σ δ) (T e : List Nat) (peaks : List (List Int))
+    (ht : o.translations.length = peaks.length) (hr : o.rotations.length = peaks.length)
+    (hs : o.scores.length = peaks.length) (hd : o.details.length = peaks.length) :
+    (extraction T e peaks false).map (·.1) = List.range peaks.length ∧
+    (extraction T e peaks false).map (·.2) = peaks.map (windowAxes T e) ∧
+    extractionSubset o T e peaks false = .ok o := by
+  have hm : (keepMask T e peaks false).length = peaks.length := by simp [keepMask]
+  have ha : ∀ b ∈ keepMask T e peaks false, b = true := by simp [keepMask]
+  obtain ⟨h1, h2, _⟩ := extraction_rows T e peaks false
+  refine ⟨?_, ?_, ?_⟩
+  · have h3 := takeMask_spec (List.range peaks.length) (keepMask T e peaks false) (by simp [keepMask])
+    rw [h3] at h1
+    injection h1 with h1
+    rw [← h1, ← maskSel_eq_filter, maskSel_all _ _ (by simp [keepMask]) ha]
+  · rw [h2, maskSel_all _ _ hm ha]
+  · rw [extraction_subset o T e peaks false ht hr hs hd,
+      maskSel_all _ _ (hm.trans ht.symm) ha, maskSel_all _ _ (hm.trans hr.symm) ha,
+      maskSel_all _ _ (hm.trans hs.symm) ha, maskSel_all _ _ (hm.trans hd.symm) ha]
+
+/-- **every returned window, every axis, both settings**: the window of axis `k` of a returned entry is computed from
+the `k`-th target extent, box extent and coordinate of that pick; candidate (destination) and observation (source)
+slices have equal extents, the observation slice lies in `[0, T_k]`, the candidate slice in `[0, e_k]`, and both are
+proper intervals when the coordinate lies in the target -/
+theorem extraction_windows_spec (T e : List Nat) (peaks : List (List Int)) (drop : Bool) (i : Nat)
+    (w : List (Int × Int × Int × Int)) (hw : (i, w) ∈ extraction T e peaks drop)
+    (k : Nat) (wk : Int × Int × Int × Int) (hk : w[k]? = some wk) :
+    ∃ p Tk ek pk, peaks[i]? = some p ∧ T[k]? = some Tk ∧ e[k]? = some ek ∧ p[k]? = some pk ∧
+      wk = (candBeg ek pk, candEnd Tk ek pk, obsBeg ek pk, obsEnd Tk ek pk) ∧
+      wk.2.1 - wk.1 = wk.2.2.2 - wk.2.2.1 ∧
+      0 ≤ wk.2.2.1 ∧ wk.2.2.2 ≤ Tk ∧ 0 ≤ wk.1 ∧ wk.2.1 ≤ ek ∧
+      (0 ≤ pk → pk ≤ Tk → wk.2.2.1 ≤ wk.2.2.2 ∧ wk.1 ≤ wk.2.1) := by
+  obtain ⟨p, hp, _, rfl⟩ := (mem_extraction T e peaks drop i w).mp hw
+  obtain ⟨Tk, ek, pk, hT, he, hpk, rfl⟩ := (windowAxes_getElem? T e p k wk).mp hk
+  have a := window_extents_eq Tk ek pk
+  have b := window_in_target Tk ek pk
+  have c := window_in_box Tk ek pk
+  exact ⟨p, Tk, ek, pk, hp, hT, he, hpk, rfl, a, b.1, b.2.1, c.1, c.2.1, fun h0 h1 => ⟨b.2.2 h0 h1, c.2.2 h0 h1⟩⟩
+
+/-- one window per axis for every returned entry (extents and coordinates of equal rank) -/
+theorem extraction_rank (T e : List Nat) (peaks : List (List Int)) (drop : Bool) (h1 : T.length = e.length)
+    (h2 : ∀ p ∈ peaks, p.length = e.length) :
+    ∀ iw ∈ extraction T e peaks drop, iw.2.length = T.length := by
+  rintro ⟨i, w⟩ hw
+  obtain ⟨p, hp, _, rfl⟩ := (mem_extraction T e peaks drop i w).mp hw
+  exact windowAxes_length T e p h1 (h2 p (List.mem_of_getElem? hp)).symm
+
+/-- **with `drop_out_of_box`**: on every axis of every returned entry the box `[p_k - ⌈e_k/2⌉, p_k + ⌊e_k/2⌋)` lies
+inside the target, the observation slice is that box and the candidate slice is the whole `[0, e_k)` -/
+theorem extraction_drop_spec (T e : List Nat) (peaks : List (List Int)) (i : Nat)
+    (w : List (Int × Int × Int × Int)) (hw : (i, w) ∈ extraction T e peaks true)
+    (k : Nat) (wk : Int × Int × Int × Int) (hk : w[k]? = some wk) :
+    ∃ p Tk ek pk, peaks[i]? = some p ∧ T[k]? = some Tk ∧ e[k]? = some ek ∧ p[k]? = some pk ∧
+      0 ≤ pk - leftPad ek ∧ pk + rightPad ek ≤ Tk ∧
+      wk = (0, (ek : Int), pk - leftPad ek, pk + rightPad ek) := by
+  obtain ⟨p, hp, hkeep, rfl⟩ := (mem_extraction T e peaks true i w).mp hw
+  have hkeep : keepPick T e p = true := hkeep.resolve_left (by decide)
+  obtain ⟨Tk, ek, pk, hT, he, hpk, rfl⟩ := (windowAxes_getElem? T e p k wk).mp hk
+  have ha := (keepPick_iff_axes T e p).mp hkeep k Tk ek pk hT he hpk
+  have hf := (keep_iff_fits Tk ek pk).mp ha
+  have hwin := kept_window Tk ek pk ha
+  have hfull := (kept_iff_full Tk ek pk).mp ha
+  have hbox := window_in_box Tk ek pk
+  refine ⟨p, Tk, ek, pk, hp, hT, he, hpk, by omega, hf.2, ?_⟩
+  have c0 : candBeg ek pk = 0 := by omega
+  have c1 : candEnd Tk ek pk = ek := by omega
+  rw [c0, c1, hwin.1, hwin.2.1]
+
+/-- **kept ⇔ the box lies in the target**: with `drop_out_of_box` pick `i` is returned exactly when on every axis its
+box fits into the target; nothing else is dropped and nothing else is kept -/
+theorem extraction_drop_iff (T e : List Nat) (peaks : List (List Int)) (i : Nat) :
+    (∃ w, (i, w) ∈ extraction T e peaks true) ↔
+      ∃ p, peaks[i]? = some p ∧
+        ∀ (k : Nat) Tk ek pk, T[k]? = some Tk → e[k]? = some ek → p[k]? = some pk →
+          leftPad ek ≤ pk ∧ pk + rightPad ek ≤ Tk := by
+  constructor
+  · rintro ⟨w, hw⟩
+    obtain ⟨p, hp, hkeep, rfl⟩ := (mem_extraction T e peaks true i w).mp hw
+    have hkeep : keepPick T e p = true := hkeep.resolve_left (by decide)
+    refine ⟨p, hp, ?_⟩
+    intro k Tk ek pk hT he hpk
+    exact (keep_iff_fits Tk ek pk).mp ((keepPick_iff_axes T e p).mp hkeep k Tk ek pk hT he hpk)
+  · rintro ⟨p, hp, h⟩
+    refine ⟨windowAxes T e p, (mem_extraction T e peaks true i _).mpr ⟨p, hp, Or.inr ?_, rfl⟩⟩
+    rw [keepPick_iff_axes]
+    intro k Tk ek pk hT he hpk
+    exact (keep_iff_fits Tk ek pk).mpr (h k Tk ek pk hT he hpk)
+
+/-- the axis-wise reading of the n-D functions used above (no rank hypotheses: `zip` stops at the shortest list) -/
+theorem windowAxes_axis (T e : List Nat) (p : List Int) (k : Nat) (w : Int × Int × Int × Int) :
+    (windowAxes T e p)[k]? = some w ↔
+      ∃ Tk ek pk, T[k]? = some Tk ∧ e[k]? = some ek ∧ p[k]? = some pk ∧
+        w = (candBeg ek pk, candEnd Tk ek pk, obsBeg ek pk, obsEnd Tk ek pk) :=
+  windowAxes_getElem? T e p k w
+
+theorem keepPick_axes (T e : List Nat) (p : List Int) :
+    keepPick T e p = true ↔
+      ∀ (k : Nat) Tk ek pk, T[k]? = some Tk → e[k]? = some ek → p[k]? = some pk → keepAxis Tk ek pk = true :=
+  keepPick_iff_axes T e p
+
+/-- 2-D, four picks (interior, on the lower border, outside the target, on the upper border), even and odd box extents:
+padding mode returns all four, `drop_out_of_box` exactly the interior one with full windows -/
+example : extraction [10, 9] [4, 5] [[5, 5], [0, 4], [-3, 20], [9, 8]] false =
+    [(0, [(0, 4, 3, 7), (0, 5, 2, 7)]), (1, [(2, 4, 0, 2), (0, 5, 1, 6)]),
+     (2, [(5, 4, 0, -1), (0, -8, 17, 9)]), (3, [(0, 3, 7, 10), (0, 4, 5, 9)])] := by decide
+example : extraction [10, 9] [4, 5] [[5, 5], [0, 4], [-3, 20], [9, 8]] true = [(0, [(0, 4, 3, 7), (0, 5, 2, 7)])] := by decide
+example : keepMask [10, 9] [4, 5] [[5, 5], [0, 4], [-3, 20], [9, 8]] true = [true, false, false, false] := by decide
+example : (0, [(0, 4, 3, 7), (0, 5, 2, 7)]) ∈ extraction [10, 9] [4, 5] [[5, 5], [0, 4]] true := by decide
+/-- 3-D, box larger than the target on one axis: every pick is dropped; 0 picks: nothing to return -/
+example : extraction [6, 6, 6] [3, 8, 2] [[3, 3, 3], [2, 4, 1]] true = [] ∧ extraction [6, 6] [3, 3] [] false = [] := by decide
+example : extractionSubset (⟨[10, 11, 12], [20, 21, 22], [30, 31, 32], [40, 41, 42]⟩ : Orient Nat Nat Nat Nat)
+    [10] [4] [[5], [0], [8]] true = .ok ⟨[10, 12], [20, 22], [30, 32], [40, 42]⟩ := by decide
+example : (extraction [10, 9] [4, 5] [[5, 5], [0, 4], [5, 4]] true).map (·.1) = [0, 2] := by decide
+/-- the rank hypotheses of `extraction_rank` on a 2-D case -/
+example : [10, 9].length = [4, 5].length ∧ ∀ p ∈ [[5, 5], [0, 4], [5, 4]], p.length = [4, 5].length := by decide
+/-- `extraction_drop_iff` read on a concrete pick: `[5, 4]` (position 2) fits on both axes, hence is returned -/
+example : ∃ w, (2, w) ∈ extraction [10, 9] [4, 5] [[5, 5], [0, 4], [5, 4]] true := by
+  rw [extraction_drop_iff]
+  refine ⟨[5, 4], rfl, ?_⟩
+  intro k Tk ek pk hT he hp
+  match k, hT, he, hp with
+  | 0, hT, he, hp => cases hT; cases he; cases hp; decide
+  | 1, hT, he, hp => cases hT; cases he; cases hp; decide
+  | k + 2, hT, _, _ => simp at hT
+
+/-! ## from stored translations to picks (`self.translations.astype(int)`) -/
+
+/-- **truncation towards zero**: for a finite coordinate `x = m·2^e` the pick is `x` itself when `x` is an integer
+(`e ≥ 0`), otherwise the integer next to `x` in the direction of zero (`q = 2^(-e)`: `p·q ≤ m < (p+1)·q` for `x ≥ 0`,
+`(p-1)·q < m ≤ p·q` for `x ≤ 0`) -/
+theorem truncPick_spec (m e : Int) :
+    (0 ≤ e → truncPick m e = m * 2 ^ e.toNat) ∧
+    (e < 0 →
+      (0 ≤ m → truncPick m e * 2 ^ (-e).toNat ≤ m ∧ m < (truncPick m e + 1) * 2 ^ (-e).toNat) ∧
+      (m ≤ 0 → (truncPick m e - 1) * 2 ^ (-e).toNat < m ∧ m ≤ truncPick m e * 2 ^ (-e).toNat)) := by
+  refine ⟨fun h => by simp [truncPick, h], ?_⟩
+  intro he
+  have hq : (0 : Int) < 2 ^ (-e).toNat := by positivity
+  have hb := tdiv_bounds m (2 ^ (-e).toNat) hq
+  have hd : truncPick m e = Int.tdiv m (2 ^ (-e).toNat) := by simp [truncPick, Int.not_le.mpr he]
+  rw [hd]
+  exact ⟨fun h => ⟨(hb.1 h).1, (hb.1 h).2.1⟩, fun h => ⟨(hb.2 h).1, (hb.2 h).2.1⟩⟩
+
+/-- a coordinate inside the target (`0 ≤ x ≤ T`, any fractional part) gives a pick inside the target -/
+theorem truncPick_in_target (T : Nat) (m e : Int) (h0 : 0 ≤ m)
+    (hT : if 0 ≤ e then m * 2 ^ e.toNat ≤ T else m ≤ T * 2 ^ (-e).toNat) :
+    0 ≤ truncPick m e ∧ truncPick m e ≤ T := by
+  by_cases he : 0 ≤ e
+  · rw [if_pos he] at hT
+    have hq : (0 : Int) < 2 ^ e.toNat := by positivity
+    simp only [truncPick, if_pos he]
+    exact ⟨Int.mul_nonneg h0 (Int.le_of_lt hq), hT⟩
+  · rw [if_neg he] at hT
+    have hq : (0 : Int) < 2 ^ (-e).toNat := by positivity
+    have hb := (tdiv_bounds m (2 ^ (-e).toNat) hq).1 h0
+    simp only [truncPick, if_neg he]
+    exact ⟨hb.2.2, Int.le_of_mul_le_mul_right (Int.le_trans hb.1 hT) hq⟩
+
+/-- … so both of its windows are proper (possibly empty) intervals on that axis, whatever the box extent -/
+theorem window_of_translation (T b : Nat) (m e : Int) (h0 : 0 ≤ m)
+    (hT : if 0 ≤ e then m * 2 ^ e.toNat ≤ T else m ≤ T * 2 ^ (-e).toNat) :
+    obsBeg b (truncPick m e) ≤ obsEnd T b (truncPick m e) ∧ candBeg b (truncPick m e) ≤ candEnd T b (truncPick m e) := by
+  obtain ⟨h1, h2⟩ := truncPick_in_target T m e h0 hT
+  exact ⟨(window_in_target T b _).2.2 h1 h2, (window_in_box T b _).2.2 h1 h2⟩
+
+/-- 2.75 = 11·2⁻², -2.75, 12 = 3·2², -0.5: picks 2, -2, 12, 0 -/
+example : truncPeaks [[(11, -2), (-11, -2)], [(3, 2), (-1, -1)]] = [[2, -2], [12, 0]] := by decide
+example : (if (0 : Int) ≤ -2 then (11 : Int) * 2 ^ (-2 : Int).toNat ≤ (3 : Nat) else (11 : Int) ≤ (3 : Nat) * 2 ^ (-(-2 : Int)).toNat) := by decide
+
+/-! ## `copy`, `__iter__` -/
+
+/-- `copy()` (= `self[np.arange(n)]`) succeeds and returns every row of all four arrays, in order -/
+theorem copy_identity {τ ρ σ δ : Type} (o : Orient τ ρ σ δ)
+    (ht : o.translations.length = o.scores.length) (hr : o.rotations.length = o.scores.length)
+    (hd : o.details.length = o.scores.length) : o.copy = .ok o := by
+  unfold Orient.copy Orient.getIdx
+  have h1 := takeIdx_arange o.translations
+  have h2 := takeIdx_arange o.rotations
+  have h3 := takeIdx_arange o.scores
+  have h4 := takeIdx_arange o.details
+  rw [ht] at h1; rw [hr] at h2; rw [hd] at h4
+  rw [h1, h2, h3, h4]
+  rfl
+
+/-- selecting `0, 1, …, n-1` from any array of length `n` is the identity -/
+theorem subset_arange {α : Type} (l : List α) : takeIdx l (arange l.length) = .ok l := takeIdx_arange l
+
+/-- iteration yields one tuple per orientation, the `k`-th made of the `k`-th entries of the four arrays -/
+theorem iter_rows {τ ρ σ δ : Type} (o : Orient τ ρ σ δ)
+    (hr : o.rotations.length = o.translations.length) (hs : o.scores.length = o.translations.length)
+    (hd : o.details.length = o.translations.length) :
+    o.iterRows.length = o.translations.length ∧
+    ∀ k (hk : k < o.translations.length),
+      o.iterRows[k]? = some (o.translations[k], o.rotations[k]'(hr ▸ hk), o.scores[k]'(hs ▸ hk), o.details[k]'(hd ▸ hk)) := by
+  refine ⟨by simp [Orient.iterRows, hr, hs, hd], ?_⟩
+  intro k hk
+  have h2 : k < o.rotations.length := hr ▸ hk
+  have h3 : k < o.scores.length := hs ▸ hk
+  have h4 : k < o.details.length := hd ▸ hk
+  simp [Orient.iterRows, hk, h2, h3, h4]
+
+example : (⟨[1, 2, 3], [4, 5, 6], [7, 8, 9], [0, 0, 1]⟩ : Orient Nat Nat Nat Nat).copy = .ok ⟨[1, 2, 3], [4, 5, 6], [7, 8, 9], [0, 0, 1]⟩ := by
+  decide
+example : (⟨[1, 2], [4, 5], [7, 8], [0, 1]⟩ : Orient Nat Nat Nat Nat).iterRows = [(1, 4, 7, 0), (2, 5, 8, 1)] := by decide
+example : takeIdx ['a', 'b', 'c'] (arange 3) = .ok ['a', 'b', 'c'] := by decide
+
+/-! ## constructor validation (`__post_init__`), and why `__getitem__` / `copy` never trip it -/
+
+/-- **accepted shapes**: the constructor accepts exactly the sets whose four arrays have at least one axis and the same
+number of rows, with 2-D translations and 2-D rotations (the rank of scores / details beyond the first axis is not
+examined by the code) -/
+theorem postInit_ok_iff (t r s d : List Nat) :
+    postInit t r s d = .ok () ↔
+      ∃ n dt dr ss ds, t = [n, dt] ∧ r = [n, dr] ∧ s = n :: ss ∧ d = n :: ds := by
+  constructor
+  · intro h
+    unfold postInit at h
+    split at h
+    · rename_i nt t' nr r' ns s' nd d'
+      split at h
+      · cases h
+      · rename_i h1
+        split at h
+        · cases h
+        · rename_i h2
+          split at h
+          · cases h
+          · rename_i h3
+            simp at h1 h2 h3
+            obtain ⟨⟨rfl, rfl⟩, rfl⟩ := h1
+            obtain ⟨dt, rfl⟩ := List.length_eq_one_iff.mp h2
+            obtain ⟨dr, rfl⟩ := List.length_eq_one_iff.mp h3
+            exact ⟨_, dt, dr, s', d', rfl, rfl, rfl, rfl⟩
+    · cases h
+  · rintro ⟨n, dt, dr, ss, ds, rfl, rfl, rfl, rfl⟩
+    simp [postInit, pure, Except.pure]
+
+/-- **which error**: a 0-d array among the four is an `IndexError` (whatever the others are); otherwise every
+rejected set is a `ValueError` -/
+theorem postInit_error_kind (t r s d : List Nat) :
+    ((t = [] ∨ r = [] ∨ s = [] ∨ d = []) → postInit t r s d = .error .indexError) ∧
+    (t ≠ [] → r ≠ [] → s ≠ [] → d ≠ [] → postInit t r s d = .ok () ∨ postInit t r s d = .error .valueError) := by
+  constructor
+  · intro h
+    unfold postInit
+    split
+    · rename_i nt t' nr r' ns s' nd d'
+      simp at h
+    · rfl
+  · intro ht hr hs hd
+    match t, r, s, d, ht, hr, hs, hd with
+    | nt :: t', nr :: r', ns :: s', nd :: d', _, _, _, _ =>
+      unfold postInit
+      simp only
+      split
+      · exact Or.inr rfl
+      · split
+        · exact Or.inr rfl
+        · split
+          · exact Or.inr rfl
+          · exact Or.inl rfl
+
+/-- **`__getitem__` re-validates and passes**: whatever integer selection succeeds on a validated set, the four
+selected arrays all have one row per index, hence `self.__class__(**kwargs)` accepts them (`dt`, `dr` = column counts) -/
+theorem getitem_idx_valid {τ ρ σ δ : Type} (o o' : Orient τ ρ σ δ) (idx : List Int) (dt dr : Nat)
+    (h : o.getIdx idx = .ok o') :
+    o'.translations.length = idx.length ∧ o'.rotations.length = idx.length ∧ o'.scores.length = idx.length ∧
+    o'.details.length = idx.length ∧
+    postInit [o'.translations.length, dt] [o'.rotations.length, dr] [o'.scores.length] [o'.details.length] = .ok () := by
+  unfold Orient.getIdx at h
+  cases h1 : takeIdx o.translations idx with
+  | error e => rw [h1] at h; cases h
+  | ok a =>
+    cases h2 : takeIdx o.rotations idx with
+    | error e => rw [h1, h2] at h; cases h
+    | ok b =>
+      cases h3 : takeIdx o.scores idx with
+      | error e => rw [h1, h2, h3] at h; cases h
+      | ok c =>
+        cases h4 : takeIdx o.details idx with
+        | error e => rw [h1, h2, h3, h4] at h; cases h
+        | ok d =>
+          rw [h1, h2, h3, h4] at h
+          injection h with h
+          subst h
+          have l1 := (takeIdx_spec _ _ _ h1).1
+          have l2 := (takeIdx_spec _ _ _ h2).1
+          have l3 := (takeIdx_spec _ _ _ h3).1
+          have l4 := (takeIdx_spec _ _ _ h4).1
+          refine ⟨l1, l2, l3, l4, ?_⟩
+          simp only [l1, l2, l3, l4]
+          exact (postInit_ok_iff _ _ _ _).mpr ⟨_, _, _, _, _, rfl, rfl, rfl, rfl⟩
+
+/-- the same for a boolean selection of a validated set (one mask entry per row): every array keeps one row per
+true entry, so the new set is accepted -/
+theorem getitem_mask_valid {τ ρ σ δ : Type} (o : Orient τ ρ σ δ) (m : List Bool) (dt dr : Nat)
+    (ht : o.translations.length = m.length) (hr : o.rotations.length = m.length)
+    (hs : o.scores.length = m.length) (hd : o.details.length = m.length) :
+    ∃ o', o.getMask m = .ok o' ∧
+      o'.translations.length = (m.filter id).length ∧ o'.rotations.length = (m.filter id).length ∧
+      o'.scores.length = (m.filter id).length ∧ o'.details.length = (m.filter id).length ∧
+      postInit [o'.translations.length, dt] [o'.rotations.length, dr] [o'.scores.length] [o'.details.length] = .ok () := by
+  have len : ∀ {α : Type} (l : List α), l.length = m.length → (maskSel l m).length = (m.filter id).length :=
+    fun l h => maskSel_length l m h
+  refine ⟨⟨maskSel o.translations m, maskSel o.rotations m, maskSel o.scores m, maskSel o.details m⟩, ?_,
+    len _ ht, len _ hr, len _ hs, len _ hd, ?_⟩
+  · simp [Orient.getMask, takeMask, ht, hr, hs, hd, bind, Except.bind, pure, Except.pure]
+  · simp only [len _ ht, len _ hr, len _ hs, len _ hd]
+    exact (postInit_ok_iff _ _ _ _).mpr ⟨_, _, _, _, _, rfl, rfl, rfl, rfl⟩
+
+example : postInit [4, 3] [4, 3] [4] [4] = .ok () ∧ postInit [0, 2] [0, 1] [0] [0] = .ok () ∧
+    postInit [4, 3] [4, 3] [4, 7] [4] = .ok () := by decide
+example : postInit [4, 3] [4, 3] [5] [4] = .error .valueError ∧ postInit [4] [4, 3] [4] [4] = .error .valueError ∧
+    postInit [4, 3] [4, 3, 1] [4] [4] = .error .valueError ∧ postInit [4, 3] [4, 3] [] [4] = .error .indexError ∧
+    postInit [] [5] [6] [7] = .error .indexError := by decide
+example : (⟨[1, 2, 3], [4, 5, 6], [7, 8, 9], [0, 0, 1]⟩ : Orient Nat Nat Nat Nat).getIdx [-1, 0, 0, 2] =
+    .ok ⟨[3, 1, 1, 3], [6, 4, 4, 6], [9, 7, 7, 9], [1, 0, 0, 1]⟩ := by decide
+example : (⟨[1, 2, 3], [4, 5, 6], [7, 8, 9], [0, 0, 1]⟩ : Orient Nat Nat Nat Nat).getMask [true, false, true] =
+    .ok ⟨[1, 3], [4, 6], [7, 9], [0, 1]⟩ := by decide
 
 /-! ## format dispatch (`to_file(filename, file_format)` / `from_file(filename, file_format)`) -/
 
